@@ -261,7 +261,7 @@ int main(int argc, char **argv) {
     Cn cn(run);
     g_parent = getpid();
     std::vector<CfgEntry> cfgs = {
-        CFG("mapped<i16,1,0>", 0, int16_t, 1, 0), CFG("mapped<u32,1,1>", 0, uint32_t, 1, 1), CFG("mapped<i64,2,1>", 0, int64_t, 2, 1),
+        CFG("mapped<i16,1,0>", 0, int16_t, 1, 0), CFG("mapped<u32,1,1>", 0, uint32_t, 1, 1), CFG("mapped<i64,2,1>", 0, int64_t, 2, 1), CFG("mapped<u64,1,4>", 0, uint64_t, 1, 4),
         CFG("mapped<u32,4,4>", 1, uint32_t, 4, 4), CFG("mapped<i64,128,4>", 1, int64_t, 128, 4), CFG("mapped<u64,1,2>", 1, uint64_t, 1, 2), CFG("mapped<i32,3,0>", 1, int32_t, 3, 0),
     };
     if (!opt.replay.empty()) {
@@ -324,7 +324,7 @@ int main(int argc, char **argv) {
     ev.rule = prop == 11
         ? "every non-decreasing sequence of length 1.." + std::to_string(N) + " over four 10-value palettes (signed and unsigned key types, values at lowest()/max-1) and the run family (up to three runs with lengths from {0,1,2,3,4,5,7,8,9,15,16,17,2E+1,2E+2,2E+3,4E+5}, adjacent or 1000 apart, last run ending at n) and, for chunked construction, the seam-window family (n=2^15, 2 and 20 chunks, every 4th of the 4096 window words at every seam and at the tail) and the long-run family (a duplicate run from around a chunk start to around a chunk end) is stored in a real MappedPGMIndex (file in a scratch directory); for every query of the alphabet lower_bound, upper_bound, count, contains are compared with the std algorithms, begin()/end()/size() with the vector. State = one stored array; transition = one query key; non-trivial = at least two distinct keys."
         : "for every non-decreasing sequence of length 1.." + std::to_string(N) + " over the palettes (first key negative, zero, positive): every history of exactly " + std::to_string(hist_len) + " steps over {R: create f1 from the range, W: create f2 from a raw key file, O1/O2: reopen f1/f2, X<i>: destroy the i-th live object} respecting file existence; after every step every live object answers the full C11 battery, f1 and f2 are byte-identical, a reopened object's index members equal its creator's, and no file changed. State = one history step; non-trivial arrays have at least two distinct keys.";
-    ev.bounds = "N<=" + std::to_string(N) + (prop == 12 ? ", history length " + std::to_string(hist_len) : "") + "; configurations mapped<i16,1,0> mapped<u32,1,1> mapped<i64,2,1>" + (thorough ? " mapped<u32,4,4> mapped<i64,128,4> mapped<u64,1,2> mapped<i32,3,0>" : "");
+    ev.bounds = "N<=" + std::to_string(N) + (prop == 12 ? ", history length " + std::to_string(hist_len) : "") + "; configurations mapped<i16,1,0> mapped<u32,1,1> mapped<i64,2,1> mapped<u64,1,4>" + (thorough ? " mapped<u32,4,4> mapped<i64,128,4> mapped<u64,1,2> mapped<i32,3,0>" : "");
     ev.assumptions = {"files live in a per-worker scratch directory on /dev/shm (or TMPDIR)", "the harness closes the descriptors that MappedPGMIndex::map_file leaks (the mappings stay valid)"};
     return run.finish(ev);
 }
